@@ -31,23 +31,30 @@ Lemma CT_detach : forall t (b : bool) s,
             end in
   let w := match t_worker (get_task s1 t) with Some w => w | None => phantom_worker k end in
   let s2 := fold_left (fun s i => decrement_executing i w s) (task_invs s1 t) s1 in
-  CT [t] [t] t None None true (upd_task t (fun x => x <| t_worker := None |>) (upd_worker w (fun k => k <| k_task := None |>) s2)).
+  CT [t] [t] t None None true (upd_task t (fun x => x <| t_worker := None |>) (upd_worker w (fun k => k <| k_task := None |>) s2)) /\
+  forall w0, t_worker (get_task s t) = Some w0 ->
+    k_task (get_worker (upd_task t (fun x => x <| t_worker := None |>) (upd_worker w (fun k => k <| k_task := None |>) s2)) w0) = None.
 Proof.
   intros t b s Er H k s1 w s2. destruct H as [HSW [HWL [HXS HLc]]].
   assert (HXS0 : XS [t] s) by (apply XS_weaken; exact HXS). clear HXS.
-  assert (H1 : exists w1, CT [t] [t] t (Some w1) None true s1).
+  assert (H1 : exists w1, CT [t] [t] t (Some w1) None true s1 /\ forall w0, t_worker (get_task s t) = Some w0 -> w0 = w1).
   { unfold s1. destruct (t_worker (get_task s t)) as [w0|] eqn:Ew.
-    - exists w0. destruct b; ct_go.
+    - exists w0. split; [destruct b; ct_go|intros w' E; inversion E; reflexivity].
     - exists (phantom_worker k).
       assert (Hkw : k_wait (get_worker s (phantom_worker k)) = false)
         by (rewrite (NPh_dummy s _ (XS_NPh _ _ HXS0) (phantom_is_phantom k)); reflexivity).
       destruct (XS_Lc_assign_queued [t] t false (phantom_worker k) 0 s (or_introl eq_refl) HXS0 HLc) as [HA HB]; [discriminate|exact Hkw|].
       destruct HB as [HB|[HB _]]; [|discriminate].
-      split; [sw_go2|]. split; [w_go2|]. split; assumption. }
-  destruct H1 as [w1 [HSW1 [HWL1 [HXS1 HLc1]]]]. clearbody s1. clear HSW HWL HXS0 HLc.
+      split; [|intros w' E; discriminate]. split; [sw_go2|]. split; [w_go2|]. split; assumption. }
+  destruct H1 as [w1 [[HSW1 [HWL1 [HXS1 HLc1]]] Hw01]]. clearbody s1. clear HSW HWL HXS0 HLc.
   assert (Ew : w = w1) by (unfold w; rewrite (LcW _ _ _ _ _ HLc1); reflexivity). clearbody w. subst w.
   assert (H2 : CT [t] [t] t (Some w1) None true s2) by (unfold s2; ct_go).
   clearbody s2. clear HSW1 HWL1 HXS1 HLc1. destruct H2 as [HSW2 [HWL2 [HXS2 HLc2]]].
+  split.
+  2:{ intros w0 E. rewrite (Hw01 w0 E).
+      destruct (pair_reads s2 w1 (fun k => k <| k_task := None |>) t (fun x => x <| t_worker := None |>)) as [_ [_ [_ [_ [E5 _]]]]].
+      rewrite E5, wref_eqb_refl. cbn. destruct (worker_exists s2 w1) eqn:Ee; [reflexivity|].
+      unfold get_worker, worker_exists in *. destruct (aget wref_eqb w1 (q_workers (get_scq s2 (w_sk w1)))); [discriminate|reflexivity]. }
   split; [sw_go2|]. split; [w_go2|]. split; [|apply Lc_unassign_pair; exact HLc2].
   assert (H3 : XS [t] (upd_worker w1 (fun k => k <| k_task := None |>) s2)).
   { apply XS_unassign_prim; [|exact HXS2]. intros t0 Hk. left.
@@ -145,8 +152,8 @@ Proof.
   eapply Lc_drop; eassumption.
 Qed.
 
-Lemma CT_final : forall t r x p k s,
-  CT [t] [t] t None None true s -> XS [] (ct_tail t r x p k s None).
+Lemma CT_final' : forall t r x p k s,
+  CT [t] [t] t None None true s -> CT [t] [t] t None (Some r) true (ct_tail t r x p k s None).
 Proof.
   intros t r x p k s H. unfold ct_tail. cbv zeta.
   set (s6 := match aget dkey_eqb (t_instance x, t_digest x) (s_inflight s) with Some t' => _ | None => s end).
@@ -156,8 +163,14 @@ Proof.
   assert (H7 : CT [t] [t] t None (Some r) true s7).
   { unfold s7. split; [sw_go2|]. split; [w_go2|]. split; [xs_go1|apply Lc_resp; exact HLc]. }
   clearbody s7. clear HSW HWL HXS HLc. destruct H7 as [HSW [HWL [HXS HLc]]].
-  apply (CT_drop [] [t] t None (Some r) true); [intros w Ew; discriminate|left; reflexivity|].
   ct_go.
+Qed.
+
+Lemma CT_final : forall t r x p k s,
+  CT [t] [t] t None None true s -> XS [] (ct_tail t r x p k s None).
+Proof.
+  intros t r x p k s H. apply (CT_drop [] [t] t None (Some r) true); [intros w Ew; discriminate|left; reflexivity|].
+  apply CT_final'. exact H.
 Qed.
 
 Lemma goc_fold_tasks : forall lk (l : list (iref * nat)) s,
@@ -259,7 +272,7 @@ Proof.
     pose proof (XS_St _ _ HXS) as [_ [_ [Hnd _]]].
     pose proof (Lc_intro [] t s Hnd (fun H => H) Hlt (XS_X _ _ HXS)) as HL. rewrite Er in HL.
     destruct (t_worker (get_task s t)); exact HL. }
-  pose proof (CT_detach t b s Er H0) as H4. cbv zeta in H4.
+  pose proof (CT_detach t b s Er H0) as [H4 _]. cbv zeta in H4.
   match type of H4 with CT _ _ _ _ _ _ ?e => set (s4 := e) in * end. clearbody s4. clear H0.
   destruct (get_pq s4 (sk_pk (task_scq s t))) as [p|].
   - pose proof (CT_learner t r b (get_task s t) p (task_scq s t) s4 H4) as H5.
@@ -268,4 +281,45 @@ Proof.
     + apply CT_final. exact H5.
   - apply (CT_drop [] [t] t None None true); [intros w Ew; discriminate|left; reflexivity|].
     destruct H4 as [HSW4 [HWL4 [HXS4 HLc4]]]. clear HXS. ct_go.
+Qed.
+
+(* what completing a task on behalf of the scheduler (not by its worker, not successfully) leaves behind *)
+Lemma ct_tail_scqs : forall t r x p k s, s_scqs (ct_tail t r x p k s None) = s_scqs s.
+Proof.
+  intros t r x p k s. assert (H : keeps_scqs (s_scqs s) (ct_tail t r x p k s None)); [|exact H].
+  unfold ct_tail. fr_go (keeps_scqs (s_scqs s)) t_ks. all: reflexivity.
+Qed.
+
+Lemma complete_task_post : forall t r s,
+  SW s -> W s -> (t < s_ntasks s)%nat -> XS [] s -> resp_success r = false ->
+  let s' := complete_task t r false s in
+  (exists wo ro, Lc t wo ro true s') /\
+  (forall w0, t_worker (get_task s t) = Some w0 -> t_resp (get_task s t) = None -> k_task (get_worker s' w0) = None).
+Proof.
+  intros t r s HSW HW Hlt HXS Hrs s'. unfold s'. rewrite complete_task_eq. cbv zeta.
+  pose proof (XS_St _ _ HXS) as [_ [_ [Hnd _]]].
+  pose proof (Lc_intro [] t s Hnd (fun H => H) Hlt (XS_X _ _ HXS)) as HL.
+  destruct (t_resp (get_task s t)) eqn:Er.
+  { split; [|intros w0 _ E; discriminate].
+    destruct (t_worker (get_task s t)); eexists; eexists; exact HL. }
+  assert (H0 : CT [] [t] t (t_worker (get_task s t)) None (match t_worker (get_task s t) with Some _ => true | None => false end) s).
+  { split; [exact HSW|]. split; [apply WL_cons; [apply WL_of_W; exact HW|exact Hlt]|]. split; [exact HXS|].
+    destruct (t_worker (get_task s t)); exact HL. }
+  pose proof (CT_detach t false s Er H0) as [H4 Hrel]. cbv zeta in H4, Hrel.
+  match type of H4 with CT _ _ _ _ _ _ ?e => set (s4 := e) in * end. clearbody s4. clear H0.
+  destruct (get_pq s4 (sk_pk (task_scq s t))) as [p|].
+  - unfold ct_learner. rewrite Hrs.
+    assert (H5 : forall s5, CT [t] [t] t None None true s5 -> s_scqs s5 = s_scqs s4 ->
+              (exists wo ro, Lc t wo ro true (ct_tail t r (get_task s t) p (task_scq s t) s5 None)) /\
+              (forall w0, t_worker (get_task s t) = Some w0 -> None = None (A:=resp) ->
+                 k_task (get_worker (ct_tail t r (get_task s t) p (task_scq s t) s5 None) w0) = None)).
+    { intros s5 H5 E5. split.
+      - destruct (CT_final' t r (get_task s t) p (task_scq s t) s5 H5) as [_ [_ [_ HLc]]]. eauto.
+      - intros w0 Ew _. rewrite (get_worker_frame' s4); [apply Hrel; exact Ew|]. rewrite ct_tail_scqs. exact E5. }
+    destruct (t_learner (get_task s t)); apply H5; try reflexivity.
+    + destruct H4 as [HSW4 [HWL4 [HXS4 HLc4]]]. clear HXS. ct_go.
+    + destruct H4 as [HSW4 [HWL4 [HXS4 HLc4]]]. clear HXS. ct_go.
+  - split.
+    + destruct H4 as [_ [_ [_ HLc4]]]. exists None, None. t_Lc.
+    + intros w0 Ew _. change (get_worker (panic "complete: platform queue missing" s4) w0) with (get_worker s4 w0). apply Hrel. exact Ew.
 Qed.
